@@ -107,6 +107,9 @@ func (sm *SecureMessage) WrapWithIV(message, iv []byte) ([]byte, error) {
 	if len(message) == 0 {
 		return nil, ErrMissingMessage
 	}
+	if uint64(len(message)) >= 1<<32 {
+		return nil, ErrOverflow
+	}
 	k, err := sm.shared()
 	if err != nil {
 		return nil, err
@@ -138,7 +141,7 @@ func (sm *SecureMessage) Unwrap(message []byte) ([]byte, error) {
 		return nil, err
 	}
 	if len(message) <= Overhead || string(message[:4]) != string(magic) ||
-		uint64(binary.LittleEndian.Uint32(message[4:8])) != uint64(len(message)) {
+		uint64(binary.LittleEndian.Uint32(message[4:8])) != uint64(len(message)) || uint64(len(message)-Overhead) >= 1<<32 {
 		return nil, ErrDecryptMessage
 	}
 	iv := message[headerLen : headerLen+ivLen]
